@@ -58,10 +58,15 @@ def main():
         "z3_unknown": prelude.Z3_STATS["unknown"],
         "analysis_s": round(t2 - t1, 3),
         "wall_s": round(t2 - t0, 3),
-        "notes": hsupport.NOTES[:20],
+        "notes": hsupport.NOTES[:20] + _unsupported(),
     }
     sys.stdout.write("\n@@RESULT@@" + json.dumps(rec) + "\n")
     sys.stdout.flush()
+
+
+def _unsupported():
+    from chx.domains import segstr
+    return ["unsupported: " + str(x) for x in segstr.UNSUPPORTED_LOG]
 
 
 if __name__ == "__main__":
